@@ -96,6 +96,40 @@ pub fn generate(tier: &str, _rng: &mut Rng) -> (Vec<String>, bool) {
     }
     // the mask must not depend on the scale of the data
     crate::cases::add_scaled(&mut out, 5, &[12, 13, 14, 15, 40], &["xs", "ys"]);
+    // constant runs of decimal fractions (not representable in binary: the one-pass power sums
+    // keep a rounding residue of either sign): a window of equal observations is still a window
+    // of `count` observations, the statistic must not turn null there
+    for f in ROLL {
+        if f.family == "cmp" {
+            continue;
+        }
+        for (ci, c) in ["1/10", "1/5", "1001/100", "3/10", "-7/10", "33/100"].iter().enumerate() {
+            for len in 2..=maxlen + 2 {
+                for w in 2..=4usize {
+                    for mp in 1..=w {
+                        // the constant run, and the run entered from a different level
+                        for lead in [false, true] {
+                            let mut xs: Vec<String> = (0..len).map(|_| c.to_string()).collect();
+                            if lead {
+                                xs[0] = "7/2".into();
+                            }
+                            if f.nullable && (len + w + ci) % 4 == 0 {
+                                xs[len / 2] = "_".into();
+                            }
+                            k += 1;
+                            let b = backends[k % backends.len()];
+                            let mut l = format!("{} w={} mp={} b={} t=f64 o=f64 xs={}{}", f.name, w, mp_tok(Some(mp)), b, xs.join(","), f.extra);
+                            if f.arity == 2 {
+                                let ys: Vec<String> = (0..len).map(|i| format!("{}/10", (i * 7 + ci) % 11)).collect();
+                                l.push_str(&format!(" ys={}", ys.join(",")));
+                            }
+                            out.push(l);
+                        }
+                    }
+                }
+            }
+        }
+    }
     (out, true)
 }
 
